@@ -38,6 +38,10 @@ pub enum Act {
     /// that decode to NaN as f32 and to the maximum as any integer - whatever a later, smaller call
     /// reads beyond its own image (even with weight 0) shows up
     White { geo: usize, alg: Alg },
+    /// SuperSampling(Box, 1) whose source is a (whole-image) CroppedImage: cropped and typed owned
+    /// containers step through their rows with the trait's default iterator, Image / ImageRef with a
+    /// specialised one
+    ViewSS { pt: PT, geo: usize },
     /// invalid crop box
     BadCrop { pt: PT },
     /// source and destination of different pixel types
@@ -47,7 +51,7 @@ pub enum Act {
     SetBe(BE),
 }
 
-const GEOS: [((u32, u32), (u32, u32)); 20] = [
+const GEOS: [((u32, u32), (u32, u32)); 22] = [
     ((3, 3), (2, 2)),
     ((9, 7), (4, 5)),
     ((4, 5), (9, 7)),
@@ -71,6 +75,11 @@ const GEOS: [((u32, u32), (u32, u32)); 20] = [
     // tiny: a Vec<u8> never allocates fewer than 8 bytes, so 4 bytes then 8 bytes is len < need <= capacity
     ((3, 2), (2, 1)),
     ((7, 2), (3, 1)),
+    // height pairs whose nearest-neighbour row count (extent - start) / step sits a rounding error
+    // below an integer: a row iterator that yields one row too few leaves the last row of the
+    // supersampling scratch image as it was
+    ((14, 14), (3, 3)),
+    ((28, 10), (3, 6)),
 ];
 
 /// Ladder actions: (pixel type, geometry index, algorithm, alpha) — one ladder per scratch buffer.
@@ -177,6 +186,9 @@ pub fn alphabet(tier: Tier, sub: bool) -> Vec<Act> {
         v.push(Act::Resize { pt: PT::F32x2, geo: 4, alg: Alg::Conv(F::Bilinear), alpha: true, frac: false });
         v.push(Act::Resize { pt: PT::F32x2, geo: 4, alg: Alg::SS(F::Bilinear, 1), alpha: false, frac: false });
     }
+    for g in [20usize, 21] {
+        v.push(Act::ViewSS { pt: PT::U8x3, geo: g });
+    }
     v.push(Act::BigAlpha { pt: PT::U16x2 });
     if !sub {
         v.push(Act::BigAlpha { pt: PT::U16x4 });
@@ -277,6 +289,20 @@ fn exec(rz: &mut Resizer, act: Act, key: u64) -> (String, Vec<u8>) {
             o.alpha = true;
             let mut dst = Raw::filled(pt, dw, dh, 0x5A);
             let r = resize_into(rz, &src, &mut dst, &o);
+            (format!("{:?}", r), dst.bytes().to_vec())
+        }
+        Act::ViewSS { pt, geo } => {
+            let ((sw, sh), (dw, dh)) = GEOS[geo];
+            let src = source(pt, sw, sh, key);
+            let mut dst = Raw::filled(pt, dw, dh, 0x5A);
+            let r = {
+                let s = src.image_ref();
+                let view = fir::images::CroppedImage::new(&s, 0, 0, sw, sh).unwrap();
+                let (w, h, p) = (dst.w, dst.h, dst.pt.fir());
+                let mut d = Image::from_slice_u8(w, h, dst.buf.as_mut(), p).unwrap();
+                let o = fir::ResizeOptions::new().resize_alg(fir::ResizeAlg::SuperSampling(fir::FilterType::Box, 1)).use_alpha(false);
+                rz.resize(&view, &mut d, &o)
+            };
             (format!("{:?}", r), dst.bytes().to_vec())
         }
         Act::BadCrop { pt } => {
@@ -428,6 +454,7 @@ fn act_class(a: Act) -> String {
         Act::Tile { pt, alg, .. } => format!("resize tile {:?} {}", pt, crate::props::c01::alg_class(alg)),
         Act::BigAlpha { pt } => format!("resize 64x48 full-range alpha {:?}", pt),
         Act::White { alg, .. } => format!("resize all-0xFF U8x4 {}", crate::props::c01::alg_class(alg)),
+        Act::ViewSS { pt, .. } => format!("SuperSampling(Box,1) from a CroppedImage {:?}", pt),
         o => format!("{:?}", o),
     }
 }
